@@ -858,6 +858,11 @@ def main():
         files["Srv.lean"] = text
         done += d8
         failed += f8
+        # handler.cpp: Handler::route, one node of the tree
+        text, d10, f10 = cxx2lean_qt.translate_route(repo, exp)
+        files["Route.lean"] = text
+        done += d10
+        failed += f10
         # proxyhandler.cpp: what process() does with the socket it is handed
         text, d9, f9 = cxx2lean_qt.translate_ph(repo, exp)
         files["Ph.lean"] = text
